@@ -13,6 +13,10 @@
 //     border + padding + width + non-auto margins exceed the containing width, so that the
 //     pre-test of §10.3.3 is enumerated below, at and above the containing width with no,
 //     one (either side) and two auto margins;
+//   - vertical sizing: full product of height x min-height x max-height x box-sizing
+//     (content-box, border-box, padding-box) x padding/border sets whose vertical and
+//     horizontal sums are equal, different or zero on one axis x content, on one box inside
+//     containers with and without an explicitly specified height (§10.5, §10.7);
 //   - cross term: every low-level vertical case with one horizontal, percentage or box-sizing
 //     deviation on one box.
 //
@@ -28,7 +32,7 @@
 // the box (fixed-height-parent, at-collapsed-through-box) or its horizontal declarations.
 //
 // Development aids (environment): C10_CENSUS=1 puts the feature set into the clause name so
-// that the engine reports every (clause, feature set) class; C10_ONLY=V|H|X keeps the units
+// that the engine reports every (clause, feature set) class; C10_ONLY=V|H|X|S (any subset) keeps the units
 // of some sub-spaces. `c10 show '<body id=body>…'` prints reference and observed layout.
 package c10
 
@@ -51,6 +55,7 @@ type check struct {
 	vmenus []*vmenu
 	shapes map[int][][]int
 	hs     *hspace
+	ss     *sspace
 	units  []unit
 }
 
@@ -79,6 +84,11 @@ func (c *check) Init(tier string, seed int64) engine.Space {
 			{vmenu{nBoxes: 4, wide: true, maxLevel: 3}, -1},
 		}
 		c.hs = &hspace{containers: 3}
+		c.ss = &sspace{containers: 3, padSets: sPadSetsQuick}
+		// every on/off combination of the four vertical and of two horizontal paddings/borders
+		for i := 1; i < 64; i++ {
+			c.ss.padSets = append(c.ss.padSets, padSet8{4 * float64(i&1), 7 * float64(i>>1&1), 2 * float64(i>>2&1), 5 * float64(i>>3&1), 11 * float64(i>>4&1), 0, 0, 6 * float64(i>>5&1)})
+		}
 		for i := 0; i < 16; i++ {
 			c.hs.padSets = append(c.hs.padSets, [4]float64{3 * float64(i&1), 5 * float64(i>>1&1), 2 * float64(i>>2&1), 4 * float64(i>>3&1)})
 		}
@@ -89,6 +99,7 @@ func (c *check) Init(tier string, seed int64) engine.Space {
 			{vmenu{nBoxes: 4, maxLevel: 2}, -1},
 		}
 		c.hs = &hspace{containers: 2, padSets: [][4]float64{{0, 0, 0, 0}, {3, 5, 0, 0}, {0, 0, 2, 4}, {3, 5, 2, 4}}}
+		c.ss = &sspace{containers: 2, padSets: sPadSetsQuick}
 	}
 	c.vmenus = nil
 	bounds := map[string]any{}
@@ -101,6 +112,14 @@ func (c *check) Init(tier string, seed int64) engine.Space {
 			hi = c.hs.size()
 		}
 		c.units = append(c.units, unit{space: spH, lo: lo, hi: hi})
+	}
+	// vertical sizing product: one-box documents as well
+	for lo := int64(0); lo < c.ss.size(); lo += hBatch {
+		hi := lo + hBatch
+		if hi > c.ss.size() {
+			hi = c.ss.size()
+		}
+		c.units = append(c.units, unit{space: spS, lo: lo, hi: hi})
 	}
 	var vdesc []string
 	for mi := range plans {
@@ -137,7 +156,7 @@ func (c *check) Init(tier string, seed int64) engine.Space {
 	if only := os.Getenv("C10_ONLY"); only != "" { // development aid: keep the units of some spaces
 		var keep []unit
 		for _, u := range c.units {
-			if strings.IndexByte(only, "VHX"[u.space]) >= 0 {
+			if strings.IndexByte(only, "VHXS"[u.space]) >= 0 {
 				keep = append(keep, u)
 			}
 		}
@@ -145,7 +164,8 @@ func (c *check) Init(tier string, seed int64) engine.Space {
 	}
 	bounds["vertical"] = vdesc
 	bounds["vertical_menu"] = "margin-top/bottom {0,10,-4,20}px; top padding|border {0,2px}; bottom border|padding {0,2px}; height {auto,15px,0}; content {nothing, one 10px line (before or after the child blocks)}; trailing sentinel line {present, absent}"
-	bounds["horizontal"] = fmt.Sprintf("full product: width {auto,50px,50%%,200px} x margin-left/right {0,auto,7px,-3px,10%%,150px} x min-width {none,30px,80px} x max-width {none,30px,80px} x box-sizing x %d padding/border sets (padding 3px|5px, border 2px|4px) x %d containers; a child with percentages probes the content box. With width:50px the 150px margin puts border+padding+width+margin exactly at the 200px containing width (no padding/border, or border-box) or above it (padding/border, 120px container, width:50%%) while width alone fits: the pre-test of 10.3.3 is decided by one specified margin, with the other margin auto (either side), 0 or a length", len(c.hs.padSets), c.hs.containers)
+	bounds["horizontal"] = fmt.Sprintf("full product: width {auto,50px,50%%,200px} x margin-left/right {0,auto,7px,-3px,10%%,150px} x min-width {none,30px,80px} x max-width {none,30px,80px} x box-sizing {content-box,border-box,padding-box} x %d padding/border sets (padding 3px|5px, border 2px|4px) x %d containers; a child with percentages probes the content box. With width:50px the 150px margin puts border+padding+width+margin exactly at the 200px containing width (no padding/border, or border-box) or above it (padding/border, 120px container, width:50%%) while width alone fits: the pre-test of 10.3.3 is decided by one specified margin, with the other margin auto (either side), 0 or a length", len(c.hs.padSets), c.hs.containers)
+	bounds["vertical_sizing"] = fmt.Sprintf("full product: height {auto,15px,50%%} x min-height {none,12px,40px,50%%} x max-height {none,8px,30px,50%%} x box-sizing {content-box,border-box,padding-box} x %d padding/border sets (vertical and horizontal sums equal, different, one of them 0, padding only, border only, vertical sum above and below the menu values) x content {nothing, one 10px line, a 20px child block} x width {auto,100px} x margin-bottom {0,10px} x %d containers (height not specified; height:60px; auto height with padding/border); a sentinel line follows", len(c.ss.padSets), c.ss.containers)
 	chunk := int64(4)
 	return engine.Space{
 		Units: int64(len(c.units)), Chunk: chunk, Level: "model_checking",
@@ -157,6 +177,7 @@ func (c *check) Init(tier string, seed int64) engine.Space {
 			"vertical margin values outside {0,10,-4,20}px, 10% and auto, horizontal margin values outside {0,7,-3,150}px, 10% and auto, and trees deeper than 4 divs, are not explored",
 			"positions of boxes without border-box area and without own text are not compared (nothing observable depends on them)",
 			"the used margin-right of an over-constrained box is not compared (not stored by the implementation, not observable)",
+			"min-height / max-height / box-sizing:padding-box are declared on the one box of the vertical sizing product only (its children and its container have none): their interplay with margin collapsing between a box and its children (8.3.1: 'min-height of zero') and percentage heights of the children of a box whose height is cut or raised are not explored",
 		},
 	}
 }
@@ -193,6 +214,11 @@ func (c *check) run(u int64, ctx reporter) {
 			ctx.Trans(1)
 			c.runCase(ctx, c.hs.build(i), "H")
 		}
+	case spS:
+		for i := un.lo; i < un.hi; i++ {
+			ctx.Trans(1)
+			c.runCase(ctx, c.ss.build(i), "S")
+		}
 	case spX:
 		m := c.vmenus[un.menu]
 		parent := c.shapes[m.nBoxes][un.shape]
@@ -200,6 +226,9 @@ func (c *check) run(u int64, ctx reporter) {
 		m.forEachAssignment(parent, un.subset, func(alts []int) {
 		dev:
 			for _, cd := range crossMenu {
+				if cd.leafOnly && !isLeaf(parent, bi) {
+					continue
+				}
 				for _, s := range un.subset {
 					if cd.slot >= 0 && int(s) == bi*nProps+cd.slot {
 						continue dev // the deviation would overwrite a vertical one
@@ -405,9 +434,10 @@ func compare(ctx reporter, ref *refDoc, obs map[string]*obox, desc string) (fail
 		case r.observable && r.hAuto:
 			ctx.Count("auto-height-bottom-compared", 1)
 			want, got := r.y+r.bh, o.y+o.bh
-			// the used height is floored at zero: an earlier displacement d of the content
-			// moves this edge to max(top content edge, undisplaced bottom + d)
-			if cons := math.Max(o.y+r.pt, r.rawBottom-r.pb+delta) + r.pb; !near(got, want) && near(got, cons) {
+			// the used height is floored at zero (cut to max-height, raised to min-height): an
+			// earlier displacement d of the content moves this edge to
+			// max(top content edge, undisplaced bottom + d), likewise cut and raised
+			if cons := o.y + r.pt + r.clampH(r.rawBottom-r.pb+delta-(o.y+r.pt)) + r.pb; !near(got, want) && near(got, cons) {
 				delta = got - want
 				break
 			}
@@ -434,7 +464,7 @@ func compare(ctx reporter, ref *refDoc, obs map[string]*obox, desc string) (fail
 					// what follows hangs below this bottom edge: if the edge is where the
 					// earlier displacement puts it, that displacement goes on from here
 					got := o.y + o.bh
-					if cons := math.Max(o.y+r.pt, r.rawBottom-r.pb+delta) + r.pb; near(got, cons) {
+					if cons := o.y + r.pt + r.clampH(r.rawBottom-r.pb+delta-(o.y+r.pt)) + r.pb; near(got, cons) {
 						delta = got - (r.y + r.bh)
 					}
 				}
@@ -572,6 +602,15 @@ func docFeatures(ref *refDoc) []string {
 		if !r.hAuto && len(r.kids) > 0 {
 			set["fixed-height-parent"] = true
 		}
+		if s.minh.k != dNone {
+			set["min-height"] = true
+		}
+		if s.maxh.k != dNone {
+			set["max-height"] = true
+		}
+		if s.paddingBox {
+			set["padding-box"] = true
+		}
 		if s.w.k != dAuto || s.ml != zero || s.mr != zero || s.minw.k != dNone || s.maxw.k != dNone {
 			set["horizontal"] = true
 		}
@@ -634,7 +673,40 @@ func (d *refDoc) edgeFeatures(r *rbox, sets []int) []string {
 	if !r.hAuto && len(r.kids) > 0 {
 		out = append(out, "fixed-height-parent")
 	}
+	out = append(out, verticalSizingFeatures(r)...)
+	// an edge that comes after a box with min-height / max-height depends on its used height
+	for _, t := range d.boxes {
+		if t.idx < r.idx && (t.spec.minh.k != dNone || t.spec.maxh.k != dNone) {
+			out = append(out, "after-min-max-height")
+			break
+		}
+	}
 	return uniq(out)
+}
+
+// verticalSizingFeatures: the declarations of r that take part in §10.7 and in the box-sizing
+// conversion of its height values.
+func verticalSizingFeatures(r *rbox) []string {
+	s := r.spec
+	var out []string
+	if s.minh.k != dNone {
+		out = append(out, "min-height")
+	}
+	if s.maxh.k != dNone {
+		out = append(out, "max-height")
+	}
+	if s.minh.k == dPct || s.maxh.k == dPct {
+		out = append(out, "percentage-min-max-height")
+	}
+	if s.minh.k != dNone || s.maxh.k != dNone || s.h.k != dAuto {
+		if s.borderBox {
+			out = append(out, "border-box")
+		}
+		if s.paddingBox {
+			out = append(out, "padding-box")
+		}
+	}
+	return out
 }
 
 // subtreeFeatures is the union of the edge features of r and of its descendants.
@@ -684,6 +756,9 @@ func horizontalFeatures(r *rbox) []string {
 	if s.borderBox {
 		out = append(out, "border-box")
 	}
+	if s.paddingBox {
+		out = append(out, "padding-box")
+	}
 	if r.overConstr {
 		out = append(out, "over-constrained")
 	}
@@ -703,6 +778,8 @@ func (c *check) Describe(u int64) any {
 	switch un.space {
 	case spH:
 		return map[string]any{"space": "horizontal product", "from": c.hs.build(un.lo).desc(), "to": c.hs.build(un.hi - 1).desc()}
+	case spS:
+		return map[string]any{"space": "vertical sizing product", "from": c.ss.build(un.lo).desc(), "to": c.ss.build(un.hi - 1).desc()}
 	default:
 		m := c.vmenus[un.menu]
 		parent := c.shapes[m.nBoxes][un.shape]
